@@ -41,8 +41,8 @@ class BoundedOb(Obligation):
     """bounded stand-in: native runs on seeded inputs; never counted as proved"""
     engine = "bounded-native"
 
-    def __init__(self, name, function, fn, instance, bound):
-        super().__init__(PID, name, function, instance=instance, clause="bounded stand-in", forall=[], enumerated=list(instance))
+    def __init__(self, name, function, fn, instance, bound, pid=None):
+        super().__init__(pid or PID, name, function, instance=instance, clause="bounded stand-in", forall=[], enumerated=list(instance))
         self.fn, self.bound = fn, bound
         self.bounded = True
 
